@@ -28,7 +28,7 @@ func schemaG() *gen.Schema {
 	s := gen.Kitchen()
 	s.Add(&gen.TypeDef{Kind: gen.KInput, Name: "In3", Inputs: []*gen.ArgDef{gen.A("k:String"), gen.A("l:String"), gen.A("n:Int")}})
 	q := s.Types["Query"]
-	q.Fields = append(q.Fields, gen.F("g(o:In3,s:String):String"))
+	q.Fields = append(q.Fields, gen.F("g(o:In3,s:String,fl:Float):String"))
 	return s
 }
 
@@ -71,7 +71,23 @@ var pool = []req{
 	{q: `query($l: [Int]!) { f(in: {a: 1, b: $l}) }`, vars: []map[string]interface{}{{"l": []interface{}{nil}}, {"l": []interface{}{1}}}}, // 26 variable type [Int]! ...
 	{q: `query($l: [Int!]) { f(in: {a: 1, b: $l}) }`, vars: []map[string]interface{}{{"l": []interface{}{nil}}, {"l": []interface{}{1}}}}, // 27 ... vs [Int!]
 	{q: `{ f(x: 3, y: B) k: f(y: B) }`, vars: none},                                                                                       // 28 static arguments (pre-coerced once per plan)
+	// extended pool: explored in ordered pairs only (see pairPass)
+	{q: `{ o { ...F } l { x ...F } } fragment F on O { y }`, vars: none},                                               // 29 a fragment spread twice ...
+	{q: `{ o { ...F } l { x } } fragment F on O { y }`, vars: none},                                                    // 30 ... the second spread absent
+	{q: `{ o { ...F } l { x ...F @skip(if: true) } } fragment F on O { y }`, vars: none},                               // 31 ... the second spread skipped
+	{q: `{ f(x: 1) g(fl: 1) }`, vars: none},                                                                            // 32 one literal text at an Int and a Float position ...
+	{q: `{ f(x: 1) g(fl: 2) }`, vars: none},                                                                            // 33 ... two texts
+	{q: `{ f(x: 7) k: f(x: 7) }`, vars: none},                                                                          // 34 the same literal twice ...
+	{q: `{ f(x: 7) k: f(x: 8) }`, vars: none},                                                                          // 35 ... and two different ones
+	{q: `{ f(in: {a: 1, b: [1, 2]}) }`, vars: none},                                                                    // 36 list literal ...
+	{q: `{ f(in: {a: 1, b: [1, 3]}) }`, vars: none},                                                                    // 37 ... differs in one item
+	{q: `{ o { ... on O { x } ... on I { y: x } } }`, vars: none},                                                      // 38 inline fragments ...
+	{q: `{ o { ... on I { x } ... on O { y: x } } }`, vars: none},                                                      // 39 ... type conditions swapped
+	{q: `query($v: Boolean!) { o { x @skip(if: $v) } }`, vars: []map[string]interface{}{{"v": true}, {"v": false}}},    // 40 skip ...
+	{q: `query($v: Boolean!) { o { x @include(if: $v) } }`, vars: []map[string]interface{}{{"v": true}, {"v": false}}}, // 41 ... against include
 }
+
+const corePool = 29
 
 type config struct {
 	maxEntries int
@@ -275,7 +291,7 @@ func (w *world) canon(c *graphql.PlanCache) string {
 func ops() []op {
 	var out []op
 	for si := 0; si < 2; si++ {
-		for ri := range pool {
+		for ri := 0; ri < corePool; ri++ {
 			if si == 1 && ri%3 != 0 {
 				continue // the second schema sees every third query (enough for the pointer guard)
 			}
@@ -304,6 +320,43 @@ func run(c *core.Ctx) {
 	c.R.Bounds["depth_default_size"] = depthDefault
 	c.R.Bounds["operations"] = len(allOps)
 	sigs := map[string]bool{}
+	// ordered pairs over the whole pool (core and extended) on one schema: the second request
+	// must be served as from scratch whatever the first one left in the cache
+	pi := 0
+	for ci, cfg := range configs() {
+		if cfg.nilCache || cfg.maxEntries == 1 {
+			continue
+		}
+		for a := range pool {
+			for b := range pool {
+				if a < corePool && b < corePool {
+					continue // covered by the search above
+				}
+				pi++
+				if !c.Mine(pi) {
+					continue
+				}
+				cache := newCache(cfg)
+				oa, ob := op{kind: 0, schema: 0, req: a}, op{kind: 0, schema: 0, req: b}
+				w.apply(cache, cfg, oa)
+				bad, fid := w.apply(cache, cfg, ob)
+				c.R.Evaluations++
+				c.R.Transitions += 2
+				c.R.Nontriv(report.H(fmt.Sprint("pair", ci, a, b)))
+				if bad != "" {
+					sig := fmt.Sprint("pair", cfg.normalize, b, sigOf(bad))
+					if !sigs[sig] {
+						sigs[sig] = true
+						if fid == "" {
+							fid = classify(cfg, ob, bad)
+						}
+						c.Mismatch(fid, sig, fmt.Sprintf("%s, after [%s]: %s: %s", cfg, oa, ob, bad), map[string]interface{}{"config": ci, "pair": []int{a, b}})
+					}
+				}
+			}
+		}
+	}
+	c.R.Bounds["extended_pool_pairs"] = len(pool)*len(pool) - corePool*corePool
 	for ci, cfg := range configs() {
 		depth := depthSmall
 		if cfg.maxEntries > 2 || cfg.nilCache {
@@ -420,6 +473,14 @@ func replay(c *core.Ctx, p map[string]interface{}) (bool, string) {
 	cfg := configs()[int(p["config"].(float64))]
 	allOps := ops()
 	cache := newCache(cfg)
+	if pr, ok := p["pair"].([]interface{}); ok && len(pr) == 2 {
+		oa, ob := op{kind: 0, schema: 0, req: int(pr[0].(float64))}, op{kind: 0, schema: 0, req: int(pr[1].(float64))}
+		w.apply(cache, cfg, oa)
+		if bad, _ := w.apply(cache, cfg, ob); bad != "" {
+			return false, fmt.Sprintf("%s, after [%s]: %s: %s", cfg, oa, ob, bad)
+		}
+		return true, "the cached path answers like the from-scratch path"
+	}
 	for _, h := range p["history"].([]interface{}) {
 		w.apply(cache, cfg, allOps[int(h.(float64))])
 	}
